@@ -99,11 +99,12 @@ def rule_marking(rep, prog, eff, strict=False):
                 # a counted primitive over elements wider than a byte (ptr::copy::<X>(s, d, n)) writes n * size_of::<X>() bytes:
                 # a mark of n covers only the first n bytes of them (seed C05-r9: copy in elements, mark in the same number)
                 fac = []
-                if n[0] == 'bin' and n[1].startswith('Mul'):
-                    fac = [deep_strip(n[2]), deep_strip(n[3])]
-                elif n[0] == 'call' and re.search(r"num::(wrapping_mul|saturating_mul)$", canon(n[1])):
-                    fac = [deep_strip(x) for x in n[2]]
-                ok = len(fac) == 2 and cnt in fac and any(is_size_of(x) or (x[0] == 'call' and canon(x[1]).endswith("::element_size")) for x in fac)
+                nn = norm(n)    # `(a MulWithOverflow b).0` (the overflow-checked product) -> `a Mul b`
+                if nn[0] == 'bin' and nn[1].startswith('Mul'):
+                    fac = [norm(nn[2]), norm(nn[3])]
+                elif nn[0] == 'call' and re.search(r"num::(wrapping_mul|saturating_mul)$", canon(nn[1])):
+                    fac = [norm(x) for x in nn[2]]
+                ok = len(fac) == 2 and norm(cnt) in fac and any(is_size_of(x) or (x[0] == 'call' and canon(x[1]).endswith("::element_size")) for x in fac)
                 rep("R5.1.extent", minst, ok, mwhere,
                     f"mark length `{tstr(n)}`; the primitive moves `{tstr(cnt)}` elements of {s['elem']} ({tstr(cnt)} * size_of bytes): the mark must be in bytes")
                 continue
